@@ -230,6 +230,32 @@ func init() {
 				}
 				d.S.Boundary()
 			}
+			// one caller buffer, two records: every accepted text followed by a text of the same
+			// length (one byte changed: another valid record, or a record that must be refused)
+			if t.fn == "" || t.fn == "DefaultParser" {
+				for xi, a := range g.good {
+					if !d.Mine(ti*100+xi) || len(a) == 0 {
+						continue
+					}
+					for k := 0; k < 8; k++ {
+						b := []byte(a)
+						pos := (k*7 + xi) % len(b)
+						switch k % 4 {
+						case 0:
+							b[pos] = "0123456789"[(k+xi)%10]
+						case 1:
+							b[len(b)-1] ^= 1
+						case 2:
+							b[pos] = "IVXLCDMabcdef-."[(k+xi)%15]
+						default:
+							b[pos] = byte(d.R.Intn(256))
+						}
+						d.Do(Ev{"op": "twin2", "pkg": t.pkg, "a": B(a), "b": B(b), "rule": 0})
+					}
+					d.Do(Ev{"op": "twin2", "pkg": t.pkg, "a": B(a), "b": B(g.good[(xi+1)%len(g.good)]), "rule": 0})
+					d.S.Boundary()
+				}
+			}
 		}
 		sizeDefaults(d)
 	}
